@@ -69,6 +69,28 @@ async def drain(loop: VLoop) -> None:
     raise RuntimeError('event loop does not become idle')
 
 
+async def drain_tasks(loop: VLoop) -> None:
+    """run the tasks / callbacks that are ready now, but no timer: what the loop does before it looks at its
+    timers again (a task created by an operation starts in the next loop iteration, ahead of any timer that
+    became due while the loop was blocked)"""
+    stash = loop._scheduled
+    loop._scheduled = []
+    try:
+        for _ in range(10_000):
+            await asyncio.sleep(0)
+            if not loop._ready:
+                await asyncio.sleep(0)
+                if not loop._ready:
+                    break
+        else:
+            raise RuntimeError('event loop does not become idle')
+    finally:
+        new = loop._scheduled
+        loop._scheduled = stash
+        for h in new:
+            heapq.heappush(stash, h)
+
+
 async def vsleep(loop: VLoop, d_ns: int) -> None:
     target = loop.vns + d_ns
     for _ in range(1_000_000):
